@@ -271,7 +271,7 @@ pub fn generate(rng: &mut Rng, prop: Prop) -> Scenario {
             // a long run of tiny records (alerts / CCS) in the flight
             let n = match rng.below(8) {
                 0 | 1 => *rng.pick(&[15usize, 16, 17, 31, 32, 33, 63, 64, 65, 127, 128, 129]),
-                2 => rng.urange(1000, 1150),
+                2 => *rng.pick(&[1000usize, 1023, 1024, 1025, 1150, 2047, 2048, 2049, 4096, 4400]),
                 _ => rng.urange(5, 150),
             };
             for _ in 0..n {
@@ -283,7 +283,7 @@ pub fn generate(rng: &mut Rng, prop: Prop) -> Scenario {
                 }
             }
             if mtu < 20000 && rng.chance(2, 3) {
-                mtu = if n > 200 { 20000 } else { 4000 }; // let them share one datagram
+                mtu = if n > 200 { 65000 } else { 4000 }; // let them share one datagram
             }
         }
         if batch >= 1 && rng.chance(1, 30) {
@@ -406,7 +406,9 @@ pub fn generate(rng: &mut Rng, prop: Prop) -> Scenario {
     }
     if batch == 2 {
         for _ in 0..rng.urange(1, 3) {
-            s.push(Item::new("flip").int("dg", rng.usize_below(dgrams.len().max(1)) as u64).int("at", rng.below(200)).int("bit", rng.below(8)));
+            // anywhere in the datagram (the position is taken modulo its length), biased to the headers
+            let at = if rng.chance(1, 2) { rng.below(64) } else { rng.below(20000) };
+            s.push(Item::new("flip").int("dg", rng.usize_below(dgrams.len().max(1)) as u64).int("at", at).int("bit", rng.below(8)).int("wrap", 1));
         }
     }
     // trunc-dribble: one datagram additionally delivered cut at EVERY byte 0..=len (enumerates all
@@ -744,7 +746,10 @@ pub fn execute(scn: &Scenario, ctx: &mut Ctx) {
     for it in scn.items.iter().filter(|i| i.kind == "flip") {
         let d = it.u("dg") as usize;
         if let Some(dg) = dgrams.get_mut(d) {
-            let at = it.u("at") as usize;
+            let mut at = it.u("at") as usize;
+            if it.u("wrap") == 1 && !dg.bytes.is_empty() {
+                at %= dg.bytes.len();
+            }
             if at < dg.bytes.len() {
                 dg.bytes[at] ^= 1 << (it.u("bit") & 7);
                 corrupted[d] = true;
